@@ -333,6 +333,15 @@ def rule_cone_selection(ctx, r):
         why = f"with patterns given the endpoints are {sorted(sel.get('NONEMPTY', []))}, without patterns {sorted(sel.get('EMPTY', []))}"
         if sel.get("EMPTY") and sel.get("EMPTY") != {"graph.endpoints()"} and any("or graph.endpoints()" in t for t in sel["EMPTY"]):
             why += " (when patterns are given but match nothing the whole workflow is selected instead of nothing)"
+        if not ok:
+            # shape not recognised: the command evaluated on the witness project decides (named endpoint, pattern matching nothing, default)
+            from .evalhelpers import cached_witness, run_command_witness, touch_command_witness
+            n_w, diffs, unsup = cached_witness(ctx, what, run_command_witness if what == "run" else touch_command_witness)
+            diffs = [d for d in diffs if "submits" in d or "touches" in d or "ends with" in d]
+            if unsup is None and not diffs:
+                r.ok(con, f"selection decided by {n_w} evaluated invocations of `gwf {what}` (requested names, a pattern matching nothing, default = all endpoints)", f.where)
+                continue
+            why += "; witness: " + (diffs[0] if diffs else f"not evaluable ({unsup})")
         r.check(ok, con, "filter_names(graph, targets) when patterns are given, graph.endpoints() otherwise",
                 f"{what}: the cone is not `the targets matching the given patterns, or all endpoints when none are given`: {why}", f.where)
     # filter_names is exactly NameFilter(patterns).apply(targets)
@@ -392,8 +401,7 @@ def rule_id_lookup(ctx, r):
 
 def run(ctx):
     r1 = ctx.rule("R1", "decision table of the scheduler: 6 backend states x dependencies pending x stale -> submits, shown status")
-    from .evalhelpers import schedule_witness
-    ctx.structural_or_witness(r1, rule_decision_table, lambda: schedule_witness(ctx, full=(ctx.tier == "thorough")), "src/gwf/scheduling.py::schedule", both=True)
+    rule_decision_table(ctx, r1)
     from .evalhelpers import cached_witness, report_witness, run_command_witness
     report_witness(r1, "src/gwf/plugins/run.py::run::witness-project", "src/gwf/plugins/run.py:1", cached_witness(ctx, "run", run_command_witness),
                    "the run command submits exactly what the property prescribes with exactly the incomplete direct dependencies as prerequisites",
